@@ -360,6 +360,8 @@ _SCOPES = {
     "C20": (("mofun.cli.mofun_cli", None),),
 }
 for _id, _sc in _SCOPES.items():
+    PROPERTIES[_id]["rules"].append((G.G4_numpy_container_pitfalls, "%s container pitfalls: ndmin=2 of an empty list, groupby on unsorted input, isinstance(., int) against numpy callers" % _id, {"scope": _sc}))
+    PROPERTIES[_id]["rules"].append((G.G6_stale_loop_cache, "%s a value computed from the outer loop variable is recomputed on every path of an outer iteration" % _id, {"scope": _sc}))
     PROPERTIES[_id]["rules"].append((G.G2_presence_tests, "%s presence tests: optional indices tested with `is None`, selections with len(), signed data not through its sum" % _id, {"scope": _sc}))
     PROPERTIES[_id]["rules"].append((G.G3_one_shot_iterators, "%s one-shot iterators are consumed once and never inside a loop that does not re-create them" % _id, {"scope": _sc}))
     PROPERTIES[_id]["decided"] += "; optional index parameters are tested against None (never by truth value), selections are tested for emptiness by length, one-shot iterators are consumed once"
@@ -374,14 +376,19 @@ _EXTRA = {
             (D2.D7_hint_table, "C03.1 hint resolution table: a given hint is used as given (0 included), one axis hint selects the atom farthest from it, the orientation atom is computed only when absent"),
             (C.C_axis_diag, "C03 the orthorhombic fast path is taken only for exactly diagonal cell matrices"),
             (A2.A14b_fallback_axis, "C03 antiparallel poses: detection with tolerance, angle test without exact pi, non-degenerate fallback axis")],
-    "C04": [(C.C_return_shape, "C04 the search returns the shape its flag announces on every path (an empty search is an empty result, not an unpack error)")],
+    "C04": [(D.D4_windows, "C04 every occurrence that is replaced must first be found: window bounds on all axes"),
+            (C.C_axis_windows, "C04 triclinic windows: plane normals, widths, norms and inward signs are paired per axis"),
+            (A2.A14b_fallback_axis, "C04 antiparallel poses are found: detection, angle test, non-degenerate fallback axis"),
+            (C.C_return_shape, "C04 the search returns the shape its flag announces on every path (an empty search is an empty result, not an unpack error)")],
     "C05": [(C.C_wrap_modulus, "C05 inserted atoms are wrapped with period exactly 1 in fractional coordinates (inside the cell, by a lattice translation)"),
             (C.C_roll_gate, "C05 the roll about the matched axis is applied to every match with more than two atoms")],
     "C06": [(C.C_idx_replace, "C06.2 index tuples, positions and rotations of the matches stay parallel, so the terms of an inserted fragment are attached to the atoms of the same match")],
-    "C08": [(C.C_quaternion_layout, "C08 reversibility needs every pose to be found again: roll sense and roll branch test"),
+    "C08": [(C.C_axis_windows, "C08 the reverse search finds the replaced site again on triclinic cells: plane normals, widths, norms and inward signs are paired per axis"),
+            (C.C_quaternion_layout, "C08 reversibility needs every pose to be found again: roll sense and roll branch test"),
             (A2.A14b_fallback_axis, "C08 reversibility needs every pose to be found again: antiparallel detection, angle test, fallback axis"),
             (C.C_roll_gate, "C08 the roll about the matched axis is applied to every match with more than two atoms"),
             (C.C_wrap_modulus, "C08 wraps are lattice translations (period 1 in fractional coordinates)")],
+    "C09": [(E.E_override_both_directions, "C09 extending: exactly the superseded existing terms are removed (forward and reverse), every other term survives")],
     "C12": [(C.C_axis_diag, "C12 np.diag(cell) is the box only under the exact orthorhombic test")],
     "C15": [(C.C_wrap_modulus, "C15 reading wraps fractional coordinates with period exactly 1"),
             (C.C_axis_diag, "C15 Cartesian <-> fractional handling never uses the cell diagonal as the box without the orthorhombic test")],
@@ -390,7 +397,8 @@ _EXTRA = {
             (D2.D6_bond_order_precedence, "C18.4 user bond-order rules take precedence over every built-in guess and are forwarded by every parameter function"),
             (D2.D8_formula_reference, "C18.1-3 pair, bond and angle parameters: returned terms equal the documented formulas in normal form on every abstract input (incl. the cosine/periodic n, b table and the fourier coefficients)"),
             (D2.D9_type_string_parsing, "C18.5 element and hybridisation character are derived correctly from every one of the 221 type labels")],
-    "C19": [(D2.D6_bond_order_precedence, "C19 term parameters honour the user bond-order rules")],
+    "C19": [(D2.D5_torsion_table, "C19 'dihedrals for which no torsion is defined are dropped' rests on dihedral_params returning None exactly for the documented cases"),
+            (D2.D6_bond_order_precedence, "C19 term parameters honour the user bond-order rules")],
     "C20": [(A2.A18c_option_types, "C20 every option delivers the kind of value its use needs; command-line defaults equal the API defaults; library formats go to the library loader/saver"),
             (A2.A18b_pair_params_parallel, "C20 --pp: one pair coefficient and one label per atom type, in type order"),
             (C.C_axis_diag, "C20 --mic: the cell diagonal is the box only under the exact orthorhombic test")],
